@@ -13,7 +13,7 @@ checks = {
  "C05": dict(engine="E1", cat="exploration", ref="§3 C05", technique="deterministic simulation: frozen-clock run vs clock-cut runs of the same tape; monitor on every accepted minimization step",
              text="Every accepted minimization step is observed through the accessor: same site as the original failure, strictly decreasing in shortlex order (the termination argument, monitored), result never larger than the original; the same tape re-run with the clock cut at a uniformly chosen point must produce an exact prefix of the frozen run's accepted sequence and present its last element."),
  "C07": dict(engine="E1", cat="exploration", ref="§3 C07", technique="deterministic simulation: two-run / three-run histories under identical simulated time; history-hash equality; printed-seed replay",
-             text="The same (program, -rapid.seed, simulated time) is executed twice in fresh bubbles and directories and the complete histories must be identical; the seed parsed from the failure message must make the first test case draw the originally failing values and fail after 0 tests; the index of the first falsified case is spread over 0..checks-1 (histogram in evidence)."),
+             text="The same (program, -rapid.seed, simulated time) is executed twice in fresh bubbles and directories and the complete histories must be identical; the seed parsed from the failure message must make the first test case draw the originally failing values and fail after 0 tests - for every seed offered in any report, also after a fail-file replay, for a MakeCheck closure created before the flags were set, with and without -short; a third execution guards against agreement by accident; the index of the first falsified case is spread over 0..checks-1 (histogram in evidence)."),
  "C09": dict(engine="E1", cat="exploration", ref="§3 C09", technique="deterministic simulation: invocation-count oracle under frozen / dripping / deadline-approaching fake clock with stale fail files on disk",
              text="Counts valid / skipped / failing random test cases of real Check runs from the recorded history: exactly N valid cases then OK and nothing more; 'only generated' + FailNow when 10*N skipped; never a vacuous pass when the clock is driven to the deadline; no fresh case after the first falsified one; fail files replayed first."),
  "C10": dict(engine="E1", cat="exploration", ref="§3 C10", technique="deterministic simulation: bracket automaton over the event history of every invocation kind + bubble quiescence for Done()-waiters",
@@ -23,16 +23,16 @@ checks = {
  "C04": dict(engine="E1", cat="exploration", ref="§3 C04", technique="deterministic simulation: multi-phase process histories (warm-ups, same seed twice, record -> prune -> replay, fail -> restart -> replay, raw recording via MakeFuzz, cold OS process vs warm) with draw-log equivalence oracles",
              text="Replay-equivalence over histories: same seed twice in different bubbles; reproduction = failing case; any two invocations started from identical words behave identically; the presented case (replay of the pruned recording) draws what the last recording run drew minus rejected attempts; restart over the same directory replays the same values; the unpruned recording through MakeFuzz reproduces the recorded run; every run starts from recreated process-wide caches, so its warm history is exactly the warm-ups on its tape, and the same tape in a fresh OS process (cold) must give the same history (look-alike regexps probe cache keying); a sampled run that behaves differently in the warm worker than in two agreeing fresh processes is reported as process-history dependence with an index-range replay."),
  "C06": dict(engine="E1", cat="exploration", ref="§3 C06", technique="deterministic simulation: two-run history fail -> restart -> rerun on a real scratch FS with hostile names/outputs, clock jumps within and between runs",
-             text="Run 1 fails with fail files enabled (hostile test names and logged output, empty bitstreams, clock cuts); exactly one new *.fail file must appear below testdata/rapid/ and be named in the message; after a restart (a new bubble, or a new OS process running the same worker binary; same second / +1 s / +1 year) the next Check, without flag or with -rapid.failfile on a moved copy, must replay exactly the minimized words before any random case and fail after 0 tests with the same message and values."),
+             text="Run 1 fails with fail files enabled (hostile test names and logged output, empty bitstreams, clock cuts); exactly one new *.fail file must appear below testdata/rapid/ and be named in the message; after a restart (a new bubble, or a new OS process running the same worker binary; same second / +1 s / +1 year) the next Check, without flag, with -rapid.failfile on a moved copy, or with -rapid.failfile naming another test's file (the own file must still be found), with TMPDIR on another file system in 12% of the runs, must replay exactly the minimized words before any random case and fail after 0 tests with the same message and values."),
  "C14": dict(engine="E2", cat="exploration", ref="§3 C14", technique="deterministic simulation: seeded schedule search with a controlled scheduler over real goroutines (yields at rapid's own sync operations); race detector as happens-before oracle; porcupine linearizability vs a sequential T model; conservation checks",
              note="Trusted base: Go 1.26.8 runtime and race detector (happens-before based: under the serialised execution it reports a race iff two accesses are unordered by rapid's own synchronisation, because the baton hand-off uses raw futex calls in norace functions); the go/types-driven yield rewrite of a scratch copy (instrument.log lists every site); porcupine v1.3.0; for data-race-free code all behaviours are interleavings at synchronisation operations (DRF-SC), so yields at sync ops plus the race oracle lose nothing statement-level preemption would find. Seeded search: evidence, not proof.",
-             text="1-4 simulated goroutines plus the property's own goroutine (joined before the property returns, or - 30% - only by the first-registered cleanup, so that they keep running during rapid's cleanup phase) call Helper/Name/Log/Logf/Error/Errorf/Fail/Failed/Context/Cleanup on one *T (also a Custom generator's inner T) under a seeded scheduler (uniform, bursty, PCT d<=3) that decides every switch at rapid's own lock/unlock/atomic operations; oracles: zero race reports with a rapid frame, linearizable invoke/return history against a sequential model of T, every signal falsifies the case (verdict fail, never flaky or pass), cleanups registered = run exactly once, one live context per invocation cancelled afterwards, no deadlock."),
+             text="1-4 simulated goroutines plus the property's own goroutine (joined before the property returns, or - 30% - only by the first-registered cleanup, so that they keep running during rapid's cleanup phase) call Helper/Name/Log/Logf/Error/Errorf/Fail/Failed/Context/Cleanup on one *T (also a Custom generator's inner T) under a seeded scheduler (uniform, bursty, PCT d<=3) that decides every switch at rapid's own lock/unlock/atomic operations; oracles: zero race reports with a rapid frame, linearizable invoke/return history against a sequential model of T, every signal falsifies the case (verdict fail, never flaky or pass), cleanups registered = run exactly once, one live context per invocation cancelled afterwards, no deadlock (incl. Go's writer-preferring RWMutex: a recursive read lock while a writer waits is a deadlock). A third of the runs issue the calls from goroutines started inside state-machine actions of t.Repeat."),
  "C15": dict(engine="E2", cat="exploration", ref="§3 C15", technique="deterministic simulation: seeded schedule search over first/later uses of one shared generator by concurrently running checks; race detector as happens-before oracle; differential oracle against solo runs",
              note="Trusted base: as C14 (race detector as HB oracle under a baton scheduler without harness-induced edges; yield rewrite; process-wide caches and package-level generators are recreated before every run by an injected helper so that every run starts cold). Seeded search: evidence, not proof.",
-             text="One freshly built generator expression (Deferred, Custom, Filter, Map, OneOf, StringMatching, String, SampledFrom, SliceOfN, nested) is shared by 2-4 simulated goroutines, each a check with its own T (passing Check, failing and minimizing Check, Example, String, use as sub-generator); the scheduler interleaves first uses with later uses at rapid's Once/sync.Map operations and at every draw; oracles: zero race reports with a rapid frame; every use observes exactly what it observes alone on a fresh generator (incl. the whole minimization trajectory)."),
+             text="One freshly built generator expression (Deferred, Custom, Filter, Map, OneOf, StringMatching, String, SampledFrom, SliceOfN, nested) is shared by 2-4 simulated goroutines, each a check with its own T (passing Check, failing and minimizing Check - optionally loading fail files first -, Example, String, use as sub-generator, generators derived inside each check from the shared one by Filter/Map chains); the scheduler interleaves first uses with later uses at rapid's Once/sync.Map operations and at every draw; oracles: zero race reports with a rapid frame; every use observes exactly what it observes alone on a fresh generator (incl. the whole minimization trajectory)."),
  "C16": dict(engine="E3", cat="fault_enumeration", ref="§3 C16", technique="deterministic fault injection: exhaustive crash-point enumeration (SIGKILL injected by strace on entry to every FS-affecting system call of a real save) with byte-comparison and fresh-process judges",
              note="Trusted base: strace 6.1 syscall injection (validated per run: the injected run's trace must equal the baseline's prefix and end at the chosen call, else it is discarded); kernel page cache is the truth (process death, not power loss); torn single writes are dominated by the crash point before the write.",
-             text="For every sampled workload (name, 0-200 output lines, bitstream size, failure kind, pre-existing directory) EVERY file-system-affecting system call of the save is a crash point: a single-threaded child is killed on entry to that call; J1: every *.fail file left behind is byte-identical (up to timestamps) to the uninterrupted save; J2: a fresh process either behaves as if no fail file existed or replays the complete case; partial data only under temporary names."),
+             text="For every sampled workload (name, 0-200 output lines, bitstream size, failure kind; pre-state: empty / directory exists / leftovers of a killed earlier save; TMPDIR on the same or on another file system; one save or two saves for the same test within one process and second) EVERY file-system-affecting system call of the save is a crash point: a single-threaded child is killed on entry to that call; J1: every *.fail file left behind is byte-identical (up to timestamps) to the uninterrupted save; J2: a fresh process either behaves as if no fail file existed or replays the complete case; partial data only under temporary names."),
  "C17": dict(engine="E1", cat="fault_enumeration", ref="§3 C17", technique="deterministic simulation: fault injection into durable state (seeded + exhaustive truncation/bit-flip corruption of real fail files) with a differential oracle against a clean directory",
              text="Faults are injected into the only durable state (the fail-file directory) between runs: 21 fault kinds incl. truncation at any offset and single-bit flips (exhaustively enumerated for a fixed reference file in the thorough tier), 1-4 files at once, passing and failing targets; differential oracle against the same run in an empty directory: no crash, same verdict/message/random cases, one log line per unusable file."),
  "C11": dict(engine="E1", cat="exploration", ref="§3 C11", technique="deterministic simulation: blame oracle over multi-case histories on the reused T (selector programs), reach probes for the ordered pairs of consecutive behaviours",
